@@ -9,6 +9,10 @@ E3 = "E3 choice-tape explorer (vmc/engines/choice.py)"
 
 # id: (engine, technique, level text, level note, design ref)
 CHECKS = {
+ "C19": (E1, "exhaustive enumeration of the composition lattice through the real plotting code on the Agg backend (figure geometry read back, exact rational containment) and the full product of entry points x argument configurations",
+         "Every composition to total 12 (quick) / 30 (thorough) is plotted with show_phaseDiagramPlot(getFig=True); the marker must be at (f+,f-) and, in exact rationals, inside the drawn polygon whose index is get_phasePlotRegion(). 2 (quick) / 8 (thorough) entry-point families (show with and without getFig, save) x 96 argument configurations on three sequences are checked for marker coordinates, title, axis labels, limits, point labels and font, returned figure; every entry point x {png,pdf,svg}; the four linear plots (show and save) against get_linear_* bar by bar.",
+         "Figures are inspected in memory (savefig is wrapped; real files are written for the format cases). File byte format, legend contents and label offsets are not judged.",
+         "DESIGN.md section 4 C19"),
  "C17": (E3, "stateless exploration of all outcomes of the internal random draws through a scripted random.Random: complete choice trees for the shuffles/swaps x every frozen subset, deviation-bounded tapes with horizon and retry bound for the two retry-loop moves, plus explicit-state BFS over chains of moves on live objects",
          "For every charge pattern to length 5 (quick) / 6 (thorough) in a distinct-letter spelling, cached or not: swapRes on all (i,j); the complete tree of random outcomes of full_shuffle, swapRandChargeRes, get_shuffled_sequence and get_permutant for every frozen subset; permute_block_swap / permute_cluster_charges on all 729 6-mer patterns (thorough also all <=4-run 8-mers) within 1 (quick) / 2 (thorough) deviations of seeded base tapes; chains of moves from 3/5 roots to the fixpoint of the arrangement graph. ~1M executions in the quick tier, each judged for rearrangement, frozen positions, child bookkeeping vs a fresh object, carried delta-max, unchanged parent and package state. The frozen-argument defect of the two retry-loop moves is a known finding keyed by call site.",
          "Randomness is owned via the module attribute rng of backend/sequence.py; executions cut by the horizon (60 choice points) or the retry bound (3 candidate children) are counted as truncated and not judged.",
